@@ -11,7 +11,7 @@ import (
 func init() { register("C06", propC06) }
 
 func propC06(r *Report, tier string) {
-	r.Explanation = "Structural necessary conditions of 'hits are the requested slice of the fully sorted match list': (a) K16 exhaustive finite abstract interpretation of SortOrder.Compare and CompareScoreDescending over all <,=,> relations of the compared fields, 0..2 keys and all flag values: equals the documented order (key priority, desc negation, hit-number tie-break), antisymmetric, specialised == generic for [-_score]; searchHitSorter.Less is Compare < 0; (b) comparator parametricity: no ordering decision in package collector compares fields of two different DocumentMatch values directly (everything goes through the injected comparator); the bounded stores never read Score/Sort/HitNumber; heap Less and slice insertion have the polarity 'keep the smallest, evict the largest' (sign tables); (c) the collector offers size+skip to the store and skip to Final; the search-after sentinel drops <= 0 and the evicted-bound shortcut drops only >= 0; (d) SearchBefore: Sort.Reverse applied twice on every success path with the re-sort after the restore, and the page is cut before the restore; (e) K11 the date layout used to print a search-after cursor equals the layout used to parse it back."
+	r.Explanation = "Structural necessary conditions of 'hits are the requested slice of the fully sorted match list': (a) K16 exhaustive finite abstract interpretation of SortOrder.Compare and CompareScoreDescending over all <,=,> relations of the compared fields, 0..2 keys and all flag values: equals the documented order (key priority, desc negation, hit-number tie-break), antisymmetric, specialised == generic for [-_score]; searchHitSorter.Less is Compare < 0; (b) comparator parametricity: no ordering decision in package collector compares fields of two different DocumentMatch values directly (everything goes through the injected comparator); the bounded stores never read Score/Sort/HitNumber; heap Less and slice insertion have the polarity 'keep the smallest, evict the largest' (sign tables); (c) the collector offers size+skip to the store and skip to Final; the search-after sentinel drops <= 0 and the evicted-bound shortcut drops only >= 0; (d) SearchBefore: Sort.Reverse applied twice on every success path with the re-sort after the restore, and the page is cut before the restore; (e) K11 the date layout used to print a search-after cursor equals the layout used to parse it back. (f) K12 encodeSearchAfter re-encodes a cursor exactly like the sort key of its mode: raw for string/auto field sorts, _id and _score; prefix-coded for number, date and geo distance."
 	r.NotCovered = "correctness of the heap/slice algorithms for all arrival orders (inductive), paging tiling, PreAllocSizeSkipCap effects, sort-key extraction (SortField.Value, missing/mode)"
 	ruleComparatorTables(r, "K16-comparator-table")
 	ruleHitSorterLess(r, "K16-comparator-table")
